@@ -96,21 +96,35 @@ Proof. reflexivity. Qed.
 Lemma gravity_ground_gets_nothing gvec bs : hd (sv_zero ROps) (grav_F ROps gvec bs) = sv_zero ROps.
 Proof. reflexivity. Qed.
 
-(** UniformGravity documents zeroHeight as "a height at which the gravitational potential energy is zero";
-    the code subtracts m*zeroHeight instead of m*|g|*zeroHeight, so a body whose mass centre is at that height
-    has PE m*zeroHeight*(|g|-1).  Witness: g = (0,-2,0), zeroHeight = 3, unit mass at height 3: PE = 3, not 0. *)
-Lemma uniformgravity_zero_height_refuted : exists g zeroHeight (b:gbody (T:=R)),
-  let '(m, com, X, ex) := b in
-  ex = false /\ v3_dot ROps (pt_G ROps X com) (0,1,0) = zeroHeight /\ g = (0,-2,0) /\
-  snd (ev_uniformgravity ROps 0 g zeroHeight [b]) <> 0.
-Proof. exists (0,-2,0), 3, (1, (0,0,0), (m33_id ROps, (0,3,0)), false). split; [reflexivity|]. split. munf; ring. split; [reflexivity|].
-  unfold ev_uniformgravity, grav_PE. cbn [snd fold_left grav_body_PE]. munf. lra. Qed.
-(** what UniformGravity does report: PE = - sum m (g . p_com + zeroHeight) *)
+(** UniformGravity documents zeroHeight as "a height at which the gravitational potential energy is zero".
+    (Until fix 6270af84 the code subtracted m*zeroHeight instead of m*|g|*zeroHeight and this was refuted; the
+    witness g = (0,-2,0), zeroHeight = 3, unit mass at height 3 is kept below and in the check as a regression case.)
+    What it reports: PE = - sum m (g . p_com + |g| zeroHeight) *)
 Lemma uniformgravity_PE_formula nu g z (bs:list (gbody (T:=R))) :
   snd (ev_uniformgravity ROps nu g z bs) =
-  sumR (map (fun b:gbody (T:=R) => let '(m, com, X, ex) := b in if ex then 0 else - (m * (v3_dot ROps g (pt_G ROps X com) + z))) bs).
-Proof. unfold ev_uniformgravity. cbn [snd]. unfold grav_PE. change (n0 ROps) with 0. induction bs as [|b bs IH]; cbn [fold_left map sumR]. reflexivity.
+  sumR (map (fun b:gbody (T:=R) => let '(m, com, X, ex) := b in
+                                   if ex then 0 else - (m * (v3_dot ROps g (pt_G ROps X com) + v3_norm ROps g * z))) bs).
+Proof. unfold ev_uniformgravity. cbn [snd]. unfold grav_PE. change (n0 ROps) with 0.
+  change (v3_norm ROps g * z) with (nmul ROps (v3_norm ROps g) z). generalize (nmul ROps (v3_norm ROps g) z). intros zo.
+  induction bs as [|b bs IH]; cbn [fold_left map sumR]. reflexivity.
   rewrite grav_PE_acc. rewrite IH. f_equal. destruct b as [[[m com] X] ex]. unfold grav_body_PE. destruct ex; vunf; ring. Qed.
+(** the documented form: per body m |g| (h - zeroHeight), h = height of the mass centre along the up direction -g/|g| *)
+Lemma uniformgravity_PE_is_documented nu g z (bs:list (gbody (T:=R))) : v3_norm ROps g <> 0 ->
+  snd (ev_uniformgravity ROps nu g z bs) =
+  sumR (map (fun b:gbody (T:=R) => let '(m, com, X, ex) := b in
+        if ex then 0 else m * v3_norm ROps g * (v3_dot ROps (pt_G ROps X com) (v3_neg ROps g) / v3_norm ROps g - z)) bs).
+Proof. intros Hg. rewrite uniformgravity_PE_formula. f_equal. apply map_ext. intros [[[m com] X] ex]. destruct ex; auto.
+  generalize (pt_G ROps X com). intros p. set (n := v3_norm ROps g) in *. dv. vunf. field. auto. Qed.
+(** a body whose mass centre is at height zeroHeight (measured along -g/|g| from the Ground origin) has zero PE *)
+Lemma uniformgravity_zero_height nu g z m com (X:Transform R) :
+  v3_dot ROps g (pt_G ROps X com) = - (v3_norm ROps g * z) ->
+  snd (ev_uniformgravity ROps nu g z [(m, com, X, false)]) = 0.
+Proof. intros H. rewrite uniformgravity_PE_formula. cbn [map sumR]. rewrite H. ring. Qed.
+Example uniformgravity_zero_height_witness :
+  snd (ev_uniformgravity ROps 0 (0,-2,0) 3 [(1, (0,0,0), (m33_id ROps, (0,3,0)), false)]) = 0.
+Proof. apply uniformgravity_zero_height. assert (E : v3_norm ROps (0,-2,0) = 2).
+  { unfold v3_norm. vunf. replace (0*0 + -2 * -2 + 0*0) with (2*2) by ring. apply sqrt_square. lra. }
+  rewrite E. munf. ring. Qed.
 
 (** mobility elements *)
 Lemma mspring_is_documented k q0 q : mspring_f ROps k q0 q = - k * (q - q0) /\ mspring_PE ROps k q0 q = / 2 * k * ((q - q0) * (q - q0)).
